@@ -1,5 +1,5 @@
 SPECIFICATION SSpec
-CONSTANTS Names = {"A", "B", "AB", "_x"} Values = {"", "v w", "p=q:r", "q'r", "x"} MaxOps = 999 WalkLen = 30
+CONSTANTS Names = {"A", "B", "AB", "_x"} Values = {"", "v w", "p=q:r", "q'r", "x", "a>b"} MaxOps = 999 WalkLen = 30
 INVARIANT SAgree
 INVARIANT Emit
 CONSTANT ReadShapes <- ShapesSim
